@@ -21,8 +21,9 @@ open(f,'w').write(s)
 PY
   rc=$?
   if [ $rc -ne 0 ]; then echo "$ID|$FILE|$PAT => PATTERN-NOT-FOUND" >> "$OUT"; continue; fi
-  RES=$("$ENV/verif/check" "$ID" --tier quick 2>&1 | tail -5)
-  if echo "$RES" | grep -q "^VIOLATION"; then V=CAUGHT; elif echo "$RES" | grep -q "BUILD-FAILED"; then V=BUILD-FAILED; else V=SURVIVED; fi
+  ALL=$("$ENV/verif/check" "$ID" --tier quick 2>&1); RC=$?
+  RES=$(echo "$ALL" | tail -5)
+  if echo "$ALL" | grep -q "BUILD-FAILED"; then V="BUILD-FAILED $(echo "$ALL" | grep -m1 -A6 '^error' | tr '\n' ' ' | cut -c1-300)"; elif [ $RC -eq 1 ] && echo "$RES" | grep -q "^VIOLATION"; then V=CAUGHT; elif [ $RC -eq 0 ]; then V=SURVIVED; else V="EXIT-$RC"; fi
   echo "$ID|$FILE|$PAT => $V :: $(echo "$RES" | grep -E '^violation' | head -1 | cut -c1-200)" >> "$OUT"
   git -C "$ENV/repo" checkout -- .
 done < "$LIST"
